@@ -14,7 +14,8 @@ META = {
                    "exclusively through MPS.orthogonalize (a gauge change that leaves the represented state "
                    "unchanged). TABLES: each operator symbol 'ab' of the three MPO bases is the single 1 at "
                    "[idx(a), idx(b)] with idx(g/0)=0, idx(r/1)=1, idx(x)=2; amplitude strings map r/1→level 1, "
-                   "x→level 2, else level 0; MPS.make builds |g…g>.",
+                   "x→level 2, else level 0; MPS.make builds |g…g>. "
+                   "CENTER-scale: scale_factors multiplies exactly factors[which]; MPS.__rmul__ scales the factor at the orthogonality centre it passes on. TABLES-terms (MPO): the per-site buffer is reset to identities for every term, each target slot receives its entry's operator, coeff·term is accumulated once.",
     "not_decided": "numerical agreement with dense linear algebra within the truncation precision",
     "trusted_base": ["CPython ast", "the VIEW_METHODS/IN_PLACE tables in sa/rules/pure.py"],
     "assumptions": ["aliasing is tracked through names, attributes, subscripts, view-like methods and loop "
